@@ -41,15 +41,25 @@ func sortKeyRule(c *Ctx) {
 			if len(cc.Common.Args) != 2 {
 				continue
 			}
-			mc, ok := stripConv(cc.Common.Args[1]).(*ssa.MakeClosure)
-			if !ok {
-				c.Ob(fn, "sort-comparator", cc.Instr, c.rule.Statement).Unknown("comparator is not a function literal")
+			// a closure, or a literal that captures nothing (go/ssa passes the function itself)
+			cmp, _ := sortComparatorFn(cc.Common.Args[1])
+			if cmp == nil || cmp.Blocks == nil {
+				c.Ob(fn, "sort-comparator", cc.Instr, c.rule.Statement).Unknown("comparator is not a function whose body is known")
 				n++
 				continue
 			}
-			cmp := mc.Fn.(*ssa.Function)
 			n++
 			o := c.Ob(fn, "sort-comparator", cc.Instr, c.rule.Statement)
+			if id == "slices.SortFunc" || id == "slices.SortStableFunc" {
+				// a three-way comparator can answer "equal" for any pair: it is a total order on distinct
+				// elements only if it is negative/zero/positive exactly for key(a) </==/> key(b)
+				// (cmp.Compare / strings.Compare of the keys, or the equivalent if-chain) and the key is
+				// injective (judged below like the operands of a less function).
+				if m, why := p.sortComparatorModel(cc.Common); m == nil {
+					o.Unknown("cannot read the three-way comparator as a strict order by one key: %s", why)
+					continue
+				}
+			}
 			var bad, unknown []string
 			seen := map[ssa.Value]bool{}
 			var walk func(v ssa.Value, d int)
